@@ -278,6 +278,8 @@ func (e *Engine) writeSetOfBlocks(fn *ssa.Function, blocks map[*ssa.BasicBlock]b
 				e.callWrites(x.Common(), w, fn, visiting)
 			case *ssa.Go:
 				// spawned goroutine: not part of this function's sequential effect (logged)
+			case *ssa.Next, *ssa.Range:
+				e.rangeGhostWrites(in, w) // models_coord.go: ghosts of a map range loop
 			case *ssa.Send:
 				w.setAll("loops.go:253")
 			case *ssa.Select:
@@ -449,6 +451,18 @@ func (e *Engine) callWrites(cc *ssa.CallCommon, w *WriteSet, fn *ssa.Function, v
 		}
 		w.setAll("call of callback field " + shortKey(key) + " (no contract)")
 		return
+	}
+	if mc := localClosureOf(cc.Value); mc != nil { // models_coord.go: `f := func(){...}; f()` through a local variable
+		if cf, ok := mc.Fn.(*ssa.Function); ok {
+			e.funcWrites(cf, w, visiting)
+			for _, b := range mc.Bindings {
+				if al, ok := b.(*ssa.Alloc); ok && al.Heap {
+					w.Boxes[al] = true
+					e.addAllocHeapKeys(al, w)
+				}
+			}
+			return
+		}
 	}
 	w.setAll("call of unknown function value in " + shortKey(funcKey(fn)))
 }
